@@ -130,6 +130,18 @@ class MultiVector:
     def type_number(self) -> int:
         return int(''.join('1' if i in self.keys() else '0' for i in reversed(self.algebra.canon2bin.values())), 2)
 
+    @cached_property
+    def type_name(self) -> str:
+        """
+        Identifier of the key tuple of this multivector for use in the names of generated functions.
+        Functions are generated and cached per *ordered* key tuple, so when the keys are not in
+        canonical order the order is made part of the name.
+        """
+        keys = tuple(self.keys())
+        if keys == tuple(k for k in self.algebra.canon2bin.values() if k in keys):
+            return f'{self.type_number}'
+        return f'{self.type_number}_o' + '_'.join(str(k) for k in keys)
+
 
     def itermv(self, axis=None) -> Generator["MultiVector", None, None]:
         """
